@@ -4,6 +4,7 @@
 package main
 
 import (
+	"context"
 	"fmt"
 	"io"
 	"log/slog"
@@ -168,8 +169,116 @@ func classify(doc string, e edit, got string) string {
 	return ""
 }
 
+// ---------- the server's notifications (DidOpen / DidChange / DidClose) ----------
+
+type stubTarget struct{ lsp.Server }
+
+func (stubTarget) DidOpen(context.Context, *lsp.DidOpenTextDocumentParams) error     { return nil }
+func (stubTarget) DidChange(context.Context, *lsp.DidChangeTextDocumentParams) error { return nil }
+func (stubTarget) DidClose(context.Context, *lsp.DidCloseTextDocumentParams) error   { return nil }
+
+type stubClient struct{ lsp.Client }
+
+func (stubClient) PublishDiagnostics(context.Context, *lsp.PublishDiagnosticsParams) error { return nil }
+
+// serverHistories: every history of ≤ depth notifications on one real proxy.Server for one document: open (and open
+// again without closing) with texts that parse and texts that do not (an element left open, plain garbage, nothing),
+// full replacements, range edits at the start / inside / beyond the end, close and re-open. After every notification
+// the server's copy must be the editor's text (a byte-splice reference), whatever the parser thinks of it.
+func serverHistories(run *vlib.Run, depth int) (n int) {
+	const uri = lsp.DocumentURI("file:///work/page.templ")
+	docs := []string{
+		"package main\n\ntempl Page() {\n\t<div>hello</div>\n}\n",
+		"package main\n\ntempl Page() {\n\t<div>hello\n}\n", // the element is not closed: does not parse
+		"garbage {{ <",
+		"",
+	}
+	type op struct {
+		name  string
+		apply func(s *proxy.Server, ctx context.Context, text *string, open *bool) error
+	}
+	change := func(c lsp.TextDocumentContentChangeEvent) func(s *proxy.Server, ctx context.Context, text *string, open *bool) error {
+		return func(s *proxy.Server, ctx context.Context, text *string, open *bool) error {
+			if !*open {
+				return nil
+			}
+			if c.Range == nil {
+				*text = c.Text
+			} else {
+				*text = refApply(*text, pos{int(c.Range.Start.Line), int(c.Range.Start.Character)}, pos{int(c.Range.End.Line), int(c.Range.End.Character)}, c.Text)
+			}
+			return s.DidChange(ctx, &lsp.DidChangeTextDocumentParams{TextDocument: lsp.VersionedTextDocumentIdentifier{TextDocumentIdentifier: lsp.TextDocumentIdentifier{URI: uri}, Version: 2}, ContentChanges: []lsp.TextDocumentContentChangeEvent{c}})
+		}
+	}
+	rng := func(sl, sc, el, ec uint32) *lsp.Range {
+		return &lsp.Range{Start: lsp.Position{Line: sl, Character: sc}, End: lsp.Position{Line: el, Character: ec}}
+	}
+	var ops []op
+	for i, d := range docs {
+		d := d
+		ops = append(ops, op{fmt.Sprintf("open(doc%d)", i), func(s *proxy.Server, ctx context.Context, text *string, open *bool) error {
+			*text, *open = d, true
+			return s.DidOpen(ctx, &lsp.DidOpenTextDocumentParams{TextDocument: lsp.TextDocumentItem{URI: uri, LanguageID: "templ", Version: 1, Text: d}})
+		}})
+		ops = append(ops, op{fmt.Sprintf("full(doc%d)", i), change(lsp.TextDocumentContentChangeEvent{Text: d})})
+	}
+	ops = append(ops,
+		op{"insert </div> at 3:11", change(lsp.TextDocumentContentChangeEvent{Range: rng(3, 11, 3, 11), Text: "</div>"})},
+		op{"insert x at 0:0", change(lsp.TextDocumentContentChangeEvent{Range: rng(0, 0, 0, 0), Text: "x"})},
+		op{"delete 0:0-1:0", change(lsp.TextDocumentContentChangeEvent{Range: rng(0, 0, 1, 0), Text: ""})},
+		op{"append beyond the end", change(lsp.TextDocumentContentChangeEvent{Range: rng(50, 0, 50, 0), Text: "\n// tail"})},
+		op{"close", func(s *proxy.Server, ctx context.Context, text *string, open *bool) error {
+			if !*open {
+				return nil
+			}
+			*open = false
+			return s.DidClose(ctx, &lsp.DidCloseTextDocumentParams{TextDocument: lsp.TextDocumentIdentifier{URI: uri}})
+		}},
+	)
+	var names []string
+	for _, o := range ops {
+		names = append(names, o.name)
+	}
+	vlib.Seqs(names, depth, func(_ string, idx []int) bool {
+		if len(idx) == 0 || !strings.HasPrefix(ops[idx[0]].name, "open(") {
+			return true
+		}
+		n++
+		func() {
+			var hist []string
+			defer func() {
+				if r := recover(); r != nil {
+					run.Violation("server-panic", fmt.Sprintf("%s: panic: %v", strings.Join(hist, " ; "), r), map[string]any{"history": hist})
+				}
+			}()
+			srv := proxy.NewServer(quietLog, stubTarget{}, proxy.NewSourceMapCache(), proxy.NewDiagnosticCache(), true)
+			ctx := lsp.WithClient(context.Background(), stubClient{})
+			text, open := "", false
+			for _, k := range idx {
+				hist = append(hist, ops[k].name)
+				ops[k].apply(srv, ctx, &text, &open) // errors (a text that does not parse) are the server's business, its copy is ours
+				if !open {
+					continue
+				}
+				d, ok := srv.TemplSource.Get(string(uri))
+				if !ok {
+					run.Violation("server-copy", fmt.Sprintf("%s: the server has no copy of the open document; the editor has %q", strings.Join(hist, " ; "), text), map[string]any{"history": hist})
+					return
+				}
+				if got := d.String(); got != text {
+					run.Violation("server-copy", fmt.Sprintf("%s: the server has %q, the editor %q", strings.Join(hist, " ; "), got, text), map[string]any{"history": hist})
+					return
+				}
+			}
+		}()
+		return true
+	})
+	return n
+}
+
 func main() {
 	run := vlib.Start("C17", "model_checking")
+	run.Cov["server_notification_histories"] = serverHistories(run, run.Pick(3, 4))
 	maxDoc := run.Pick(4, 5)
 	depth := run.Pick(2, 3)
 	capLen := 7
